@@ -391,6 +391,18 @@ _R9 = {
 }
 for _p, _t in _R9.items():
     CHECKS[_p]["text"] += _t
+# ---- round 10 additions --------------------------------------------------------------------------------------------------
+_R10 = {
+    "C03": " No function of the stream units writes a static object (R3.12, E16).",
+    "C04": " The two Poly1305 update functions (donna, SSE2) have the same buffering skeleton after renaming block size and state offsets (R4.12, E7).",
+    "C06": " Every limb sc25519_muladd / sc25519_reduce pack into the scalar bytes, except the top one, is the remainder of its own carry step (R6.6).",
+    "C07": " ristretto255_frombytes applies `is negative` to T and `is zero` to Y (R7.14); the packed limbs of sc25519_mul / sc25519_reduce are carry "
+           "remainders (R7.15).",
+    "C15": " Every decoder function that walks over the encoded text consults the ignore set (R15.8).",
+    "C17": " Every function returning the result of _sodium_malloc(n) fills exactly n bytes with a non-zero constant (R17.2).",
+}
+for _p, _t in _R10.items():
+    CHECKS[_p]["text"] += _t
 _PENDING = "not claimed"
 NOT_APPLICABLE = {
     "C01": "every clause is an equality between computed byte strings and a mathematical specification over all keys/nonces/lengths/backends: "
